@@ -193,6 +193,8 @@ class Fn:
                 bt = op["ty"].lstrip("&").replace("'static ", "").strip()
                 if re.fullmatch(r"[ui](8|16|32|64|128|size)", bt) and len(v) in (1, 2, 4, 8, 16):
                     v = int.from_bytes(v, "little", signed=bt.startswith("i"))  # promoted &CONST
+            if "variant" in op:
+                v = ("variant", op["variant"])
             return ("const", op.get("name"), v, op["ty"])
         if k in ("copy", "move"):
             return self.expr_place(op["place"], depth, stack)
